@@ -150,8 +150,8 @@ def own(spec, v):
         if isinstance(v, float):
             if math.isinf(v):
                 return (GREY, None)
-            if v == int(v) and abs(v) < 2 ** 53:
-                return (EXACT, int(v)) if lo <= int(v) <= hi else (GREY, None)
+            if v == int(v):
+                return (EXACT, int(v)) if abs(v) < 2 ** 53 and lo <= int(v) <= hi else (GREY, None)
             # pandas nullable integers refuse non-integral floats ("cannot safely cast non-equivalent");
             # numpy integers truncate them silently: lossy, no claim.
             return (FAIL, None) if k == "extint" else (GREY, None)
@@ -379,6 +379,7 @@ def datetime_precondition(elems):
     import pandas as pd
 
     fmts = set()
+    zones = set()
     aware = naive = False
     for v in elems:
         if V.is_null(v):
@@ -388,10 +389,13 @@ def datetime_precondition(elems):
             naive = True
         elif isinstance(v, pd.Timestamp) and v.tzinfo is not None:
             aware = True
+            zones.add(str(v.tzinfo))
         else:
             naive = True
     if aware and naive:
         return "datetime-mixed-naive-aware"
+    if len(zones) > 1:
+        return "datetime-mixed-timezones"
     if len(fmts) > 1:
         return "datetime-mixed-string-formats"
     return None
